@@ -231,17 +231,18 @@ func (r *Route) weighTargets() {
 		}
 	}
 
-	// sum the fixed weights relative to the largest one so that neither
-	// huge nor denormal weights can overflow the arithmetic below
+	// sum the fixed weights. The sum relative to the largest weight is used
+	// when huge or denormal weights would overflow the plain arithmetic.
 	var relSum, sumFixed float64
 	if nFixed > 0 {
 		for _, t := range r.Targets {
 			if t.FixedWeight > 0 {
+				sumFixed += t.FixedWeight
 				relSum += t.FixedWeight / maxFixed
 			}
 		}
-		sumFixed = relSum * maxFixed
 	}
+	plain := !math.IsInf(sumFixed, 0) && !math.IsInf(1/sumFixed, 0)
 
 	// if there are no targets with fixed weight then each target simply gets
 	// an equal amount of traffic
@@ -266,7 +267,9 @@ func (r *Route) weighTargets() {
 	// assign the actual weight to each target
 	for _, t := range r.Targets {
 		if t.FixedWeight > 0 {
-			if normalize {
+			if normalize && plain {
+				t.Weight = t.FixedWeight * (1 / sumFixed)
+			} else if normalize {
 				t.Weight = t.FixedWeight / maxFixed / relSum
 			} else {
 				t.Weight = t.FixedWeight
